@@ -423,6 +423,25 @@ pub fn parse_name_and_address(
     Ok(name_and_address)
 }
 
+/// Reject input lines that the field format has no place for (they would otherwise be dropped)
+pub fn ensure_no_surplus_lines(
+    lines: &[&str],
+    used: usize,
+    field_name: &str,
+) -> Result<(), ParseError> {
+    if lines.len() > used {
+        return Err(ParseError::InvalidFormat {
+            message: format!(
+                "{} has {} line(s) but its format allows {}",
+                field_name,
+                lines.len(),
+                used
+            ),
+        });
+    }
+    Ok(())
+}
+
 /// Parse multiline text (4*35x format) - simpler version for basic multiline fields
 pub fn parse_multiline_text(
     input: &str,
